@@ -21,7 +21,7 @@ Record pcinv (s : pstate) : Prop := {
   pj_fact : forall i t, nth_error (ps_thr s) i = Some t -> thread_fact (ps_heap s) t;
   pj_seen : forall i t v, nth_error (ps_thr s) i = Some t -> pt_seen t = Some v -> v = alone_sees (pt_hdr t) (pt_body t) }.
 
-Lemma pcinv_init reqs : pcinv (pinit reqs).
+Lemma pcinv_init_f reqs : pcinv (pinit_f reqs).
 Proof.
   constructor; cbn.
   - intros i t id H. rewrite nth_error_map in H. destruct (nth_error reqs i); [|discriminate]. inversion H; subst. discriminate.
@@ -29,6 +29,8 @@ Proof.
   - intros i t H. rewrite nth_error_map in H. destruct (nth_error reqs i); [|discriminate]. inversion H; subst. reflexivity.
   - intros i t v H. rewrite nth_error_map in H. destruct (nth_error reqs i); [|discriminate]. inversion H; subst. discriminate.
 Qed.
+Lemma pcinv_init reqs : pcinv (pinit reqs).
+Proof. apply pcinv_init_f. Qed.
 
 (** a thread's fact only looks at the entry of its own object *)
 Lemma thread_fact_ext heap heap' t :
@@ -72,7 +74,7 @@ Proof.
     + destruct k; discriminate.
 Qed.
 
-Theorem pstep_inv s i c s' : pcinv s -> pstep false s i c = Some s' -> pcinv s'.
+Theorem pstep_inv s i c s' : pcinv s -> pstep as_written_pool s i c = Some s' -> pcinv s'.
 Proof.
   intros I. pose proof I as [Jo Jp Jf Js]. unfold pstep.
   destruct (nth_error (ps_thr s) i) as [t|] eqn:Ni; [|discriminate].
@@ -122,7 +124,7 @@ Proof.
     + unfold thread_fact; cbn. now exists id.
     + cbn. intros v E. inversion E; subst. rewrite Hk. now destruct (alone_sees (pt_hdr t) (pt_body t)).
   - (* the deferred clean-up *)
-    destruct Ft as (id & Ho). rewrite Ho. destruct (Jo i t id Ni Ho) as (v0 & Hv0). rewrite Hv0. rewrite cleanup_all. intros E; inversion E; subst; clear E.
+    destruct Ft as (id & Ho). rewrite Ho. destruct (Jo i t id Ni Ho) as (v0 & Hv0). rewrite Hv0. cbn [as_written_pool v_clean_on_panic v_clean_on_decode_error negb]. rewrite !andb_false_r. cbn [orb]. rewrite cleanup_all. intros E; inversion E; subst; clear E.
     apply (step_pcinv s i t); auto.
     + intros j tj idj N Nj Oj. eapply (Other id (Held i)); eauto.
     + intros id' v H. destruct (Nat.eq_dec id' id) as [->|N].
@@ -145,10 +147,10 @@ Proof.
   - discriminate.
 Qed.
 
-Theorem prun_pool_inv tr : forall s s', pcinv s -> prun_pool false s tr = Some s' -> pcinv s'.
+Theorem prun_pool_inv tr : forall s s', pcinv s -> prun_pool as_written_pool s tr = Some s' -> pcinv s'.
 Proof.
   induction tr as [|[i c] tr IH]; intros s s' I; cbn [prun_pool]; [intros E; now inversion E; subst|].
-  destruct (pstep false s i c) as [s1|] eqn:E; [|discriminate]. apply IH. exact (pstep_inv _ _ _ _ I E).
+  destruct (pstep as_written_pool s i c) as [s1|] eqn:E; [|discriminate]. apply IH. exact (pstep_inv _ _ _ _ I E).
 Qed.
 
 (** requests never change *)
@@ -173,24 +175,32 @@ Proof.
   destruct (pstep e s i c) as [s1|] eqn:E; [|discriminate]. intros R. rewrite (IH _ _ R). exact (pstep_reqs _ _ _ _ _ E).
 Qed.
 
-(** every request of every interleaving, whatever objects the pool hands out: the executor is handed what the
-    request decodes to on a fresh object *)
-Theorem pool_in_flight_as_alone_lemma reqs tr s :
-  prun_pool false (pinit reqs) tr = Some s ->
-  Forall2 (fun r v => v = None \/ v = Some (alone_sees (fst r) (snd r))) reqs (seen_by s).
+(** every request of every interleaving, whatever objects the pool hands out and whichever operations panic: the
+    executor is handed what the request decodes to on a fresh object *)
+Theorem pool_in_flight_as_alone_f_lemma (reqs : list ((string * list member) * bool)) tr s :
+  prun_pool as_written_pool (pinit_f reqs) tr = Some s ->
+  Forall2 (fun r v => v = None \/ v = Some (alone_sees (fst (fst r)) (snd (fst r)))) reqs (seen_by s).
 Proof.
-  intros R. pose proof (prun_pool_inv tr _ _ (pcinv_init reqs) R) as [_ _ _ Js]. pose proof (prun_pool_reqs _ _ _ _ R) as D.
-  cbn [pinit ps_thr] in D. rewrite map_map in D. cbn [pstart pt_hdr pt_body] in D. unfold seen_by.
+  intros R. pose proof (prun_pool_inv tr _ _ (pcinv_init_f reqs) R) as [_ _ _ Js]. pose proof (prun_pool_reqs _ _ _ _ R) as D.
+  cbn [pinit_f ps_thr] in D. rewrite map_map in D. cbn [pstart_f pt_hdr pt_body] in D. unfold seen_by.
   clear R. revert reqs D Js. generalize (ps_thr s). clear.
   induction l as [|t l IH]; intros [|r reqs] D Js; cbn in D; try discriminate; constructor.
   - inversion D as [[Dh Db Dl]]. destruct (pt_seen t) as [v|] eqn:V; [right|now left]. f_equal. rewrite (Js 0 t v eq_refl V). now rewrite Dh, Db.
   - inversion D as [[Dh Db Dl]]. apply IH; [exact Dl|]. intros j tj v Nj. exact (Js (S j) tj v Nj).
 Qed.
 
+Lemma Forall2_map_left {A B C} (f : A -> B) (P : B -> C -> Prop) l l' : Forall2 P (map f l) l' -> Forall2 (fun x y => P (f x) y) l l'.
+Proof. revert l'; induction l as [|x l IH]; intros l' H; inversion H; subst; constructor; auto. Qed.
+
+Theorem pool_in_flight_as_alone_lemma reqs tr s :
+  prun_pool as_written_pool (pinit reqs) tr = Some s ->
+  Forall2 (fun r v => v = None \/ v = Some (alone_sees (fst r) (snd r))) reqs (seen_by s).
+Proof. intros R. unfold pinit in R. exact (Forall2_map_left _ _ _ _ (pool_in_flight_as_alone_f_lemma _ _ _ R)). Qed.
+
 (** never stuck: a request that is not done can always step (with New as the pool's choice) *)
 Theorem pool_in_flight_progress_lemma reqs tr s i t :
-  prun_pool false (pinit reqs) tr = Some s -> nth_error (ps_thr s) i = Some t -> pt_pc t <> PDone ->
-  pstep false s i None <> None.
+  prun_pool as_written_pool (pinit reqs) tr = Some s -> nth_error (ps_thr s) i = Some t -> pt_pc t <> PDone ->
+  pstep as_written_pool s i None <> None.
 Proof.
   intros R Ni Nd. pose proof (prun_pool_inv tr _ _ (pcinv_init reqs) R) as [Jo _ Jf _].
   pose proof (Jf i t Ni) as Ft. unfold thread_fact in Ft. unfold pstep. rewrite Ni.
@@ -203,13 +213,31 @@ Qed.
 
 (** the object goes back to the pool before its last use: another request gets it and decodes into it *)
 Theorem early_put_witness :
-  exists s, prun_pool true (pinit [("h1", [MText FQuery "{ a }"]); ("h2", [MText FQuery "{ b }"; MText FOpName "B"])])
+  exists s, prun_pool {| v_early_put := true; v_clean_on_panic := true; v_clean_on_decode_error := true |} (pinit [("h1", [MText FQuery "{ a }"]); ("h2", [MText FQuery "{ b }"; MText FOpName "B"])])
               [(0, None); (0, None); (1, Some 0); (1, None); (0, None)] = Some s /\
             nth_error (seen_by s) 0 <> Some (Some (alone_sees "h1" [MText FQuery "{ a }"])).
 Proof. eexists. split; [vm_compute; reflexivity|]. vm_compute. intros E. discriminate. Qed.
 
 Example in_flight_runs :
-  exists s, prun_pool false (pinit [("h1", [MText FQuery "{ a }"]); ("h2", [MText FQuery "{ b }"; MText FOpName "B"])])
+  exists s, prun_pool as_written_pool (pinit [("h1", [MText FQuery "{ a }"]); ("h2", [MText FQuery "{ b }"; MText FOpName "B"])])
               [(0, None); (0, None); (1, None); (0, None); (0, None); (0, None); (1, None); (1, None); (1, None); (1, None)] = Some s /\
             seen_by s = [Some (alone_sees "h1" [MText FQuery "{ a }"]); Some (alone_sees "h2" [MText FQuery "{ b }"; MText FOpName "B"])].
 Proof. eexists. split; [vm_compute; reflexivity|reflexivity]. Qed.
+
+(** the clean-up is no deferred call: a request whose operation panics leaves its operation name behind, and the next
+    request, served with the same object and naming no operation, is handed that name *)
+Theorem cleanup_skipped_on_panic_witness :
+  exists s, prun_pool {| v_early_put := false; v_clean_on_panic := false; v_clean_on_decode_error := true |}
+              (pinit_f [(("h1", [MText FQuery "query Boom { a }"; MText FOpName "Boom"]), true); (("h2", [MText FQuery "{ a }"]), false)])
+              [(0, None); (0, None); (0, None); (0, None); (0, None); (1, Some 0); (1, None); (1, None)] = Some s /\
+            nth_error (seen_by s) 1 <> Some (Some (alone_sees "h2" [MText FQuery "{ a }"])).
+Proof. eexists. split; [vm_compute; reflexivity|]. vm_compute. intros E. discriminate. Qed.
+
+(** the clean-up is skipped on the early return taken when the body does not decode: a body with a member of the wrong
+    type has stored its query by then, and the next request, which carries none, is handed it *)
+Theorem cleanup_skipped_on_decode_error_witness :
+  exists s, prun_pool {| v_early_put := false; v_clean_on_panic := true; v_clean_on_decode_error := false |}
+              (pinit [("h1", [MText FQuery "{ b }"; MWrongType FVariables]); ("h2", [MObject FExtensions [("k", "v")]])])
+              [(0, None); (0, None); (0, None); (0, None); (0, None); (1, Some 0); (1, None); (1, None)] = Some s /\
+            nth_error (seen_by s) 1 <> Some (Some (alone_sees "h2" [MObject FExtensions [("k", "v")]])).
+Proof. eexists. split; [vm_compute; reflexivity|]. vm_compute. intros E. discriminate. Qed.
